@@ -24,6 +24,7 @@ import (
 
 // Result of one simulated run.
 type Result struct {
+	Alt     bool   `json:"alt_build,omitempty"` // ran in the alternative worker binary
 	Prop    string `json:"prop"`
 	Index   int    `json:"index"`
 	Seed    uint64 `json:"seed"`
@@ -112,6 +113,10 @@ type Prop struct {
 	// Diff: the parent runs every case in two worker binaries (default build
 	// and the one named by VERIF_WORKER_PUREGO) and compares their transcripts.
 	Diff bool
+	// AltEvery > 0: every AltEvery-th chunk of runs goes to the worker binary
+	// named by VERIF_WORKER_ALT (another build of the same code: C12 runs a
+	// quarter of its cases on the race build of the purego variant).
+	AltEvery int
 	// OnStderr lets a property turn what a worker printed on stderr (race
 	// reports) into outcomes of the runs of that worker.
 	OnStderr func(stderr string, results []*Result, probe func(string))
